@@ -293,6 +293,41 @@ theorem ainv_recv {b0 w W M A : Nat} (hW : WOk W) (hw : w ≤ 2^16) {s s' : Sys}
           rw [e6]
           exact hnr1 k f1
 
+/-- `resynchronize` keeps the allocation invariant (a window advance as in `receive`, the sender
+untouched). -/
+theorem ainv_resync {b0 w W M A : Nat} (hW : WOk W) (hw : w < 2^20) {s s' : Sys} (h : SInv b0 w W M s)
+    (a : AInv W A s) (k : Nat) (hs : stepS s (.resync k) = .ok s') : AInv W A s' := by
+  simp only [stepS] at hs
+  split at hs
+  · cases hs; exact a
+  · rename_i n id hk
+    split at hs
+    · rename_i hfresh
+      rw [stepT_resync] at hs
+      cases hr : resynchronize s.rcv.st id with
+      | error t => rw [hr] at hs; cases hs
+      | ok st' =>
+        rw [hr, bindR_ok, bindR_ok] at hs
+        cases hs
+        rcases resync_cases hw h n id (List.mem_of_getElem? hk) hfresh st' hr with rfl | ⟨nb, hnb, -, hδ, hadv, -⟩
+        · rw [pidSub_self]
+          exact ⟨a.al, a.nr, a.ld, a.sacc, a.swin, a.smax⟩
+        · have hinv := h.rcv.inv
+          have hord := h.rcv.ord
+          have F := advanceWindow_facts hW hinv hord nb hnb hδ hadv
+          obtain ⟨hA, hB⟩ := advanceWindow_core hW hinv hord nb hnb hδ hadv
+          refine ⟨?_, ?_, a.ld, a.sacc, a.swin, a.smax⟩
+          · show AL W s.pend (s.rcv.adv + pidSub st'.baseId s.rcv.st.baseId) st'
+            rw [F.base]
+            exact al_advance hW hinv a.al nb hnb hδ F.base hA hB
+          · show ∀ k, (lget st'.slots k).dataFlag = true → (lget st'.slots k).data ≠ none
+            intro k hf
+            obtain ⟨f1, f2⟩ := F.flag k hf
+            obtain ⟨-, -, -, -, -, e6⟩ := core_fields (hA k f2)
+            rw [e6]
+            exact a.nr k f1
+    · cases hs; exact a
+
 theorem ainv_step {b0 w W M A : Nat} (hW : WOk W) (hw : w ≤ 2^16) (hAM : A ≤ M) {s s' : Sys}
     (h : SInv b0 w W M s) (p : PInv W s) (a : AInv W A s) (op : SOp) (hs : stepS s op = .ok s') :
     AInv W A s' := by
@@ -300,6 +335,12 @@ theorem ainv_step {b0 w W M A : Nat} (hW : WOk W) (hw : w ≤ 2^16) (hAM : A ≤
   cases op with
   | recv => exact ainv_recv hW hw h p a hs
   | deliver k => exact ainv_deliver hW hw' hAM h a k hs
+  | resync k => exact ainv_resync hW hw' h a k hs
+  | sync =>
+    simp only [stepS] at hs
+    split at hs
+    · cases hs; exact ⟨a.al, a.nr, a.ld, a.sacc, a.swin, a.smax⟩
+    · cases hs; exact a
   | enq d c m f =>
     simp only [stepS] at hs
     split at hs
